@@ -11,7 +11,9 @@ Gen : each version goes through `zerv render` (in-process) in the four direction
 Trace: arbitrary accepted PEP 440 strings in random spellings, arbitrary accepted SemVer strings
       and label-heavy identifier lists, converted and re-converted, judged by Trace_Convert
       with the grammar and order modules (normal form, well-formedness, fixed points, equality
-      of the round trip for <= 3 release numbers).
+      of the round trip for <= 3 release numbers).  Every 7th event is a format auto-detection
+      event (`render -f auto`, `check` without --format) judged by AutoEvent - behaviour beyond
+      C07's statement, so a deviation is reported as SPEC-DEVIATION (key X:...), not as a violation.
 """
 import os
 
@@ -66,10 +68,10 @@ def run(tier):
         tev += len(events)
         tbad += len(bad)
         for i, ev in bad:
-            obs = {f: ("panic" if x["panic"] else (core.cp_text(x["s"]) if x["ok"] else "error"))
+            obs = {f: ("panic" if x["panic"] else ((core.cp_text(x["s"]) if "s" in x else [core.cp_text(q) for q in x["lines"]]) if x["ok"] else "error"))
                    for f, x in ev.items() if isinstance(x, dict)}
             panic = any(x == "panic" for x in obs.values())
-            v.add([dict(key="C07:panic" if panic else "C07:conversion", line=i, trace=path, kind=ev["k"],
+            v.add([dict(key="C07:panic" if panic else "X:format-auto-detection" if ev["k"] == "auto" else "C07:conversion", line=i, trace=path, kind=ev["k"],
                         input=core.cp_text(ev["s"]), observed=obs)])
     core.log("  validated %d recorded conversion chains, %d rejected" % (tev, tbad))
     cov = dict(states=r["distinct"] + rz["distinct"], transitions=r["states"] + rz["states"], traces_validated_against_impl=rep["evaluations"] + repz["evaluations"] + tev,
